@@ -678,7 +678,7 @@ def candidates(fn, stored_attrs=frozenset()) -> List[Cand]:
                 _set(parent, field, idx, L(ast.UnaryOp(op=ast.Not(), operand=neg_plain(e)), e))
             out.append(("cmp-not", f))
         # map <-> comprehension
-        if isinstance(e, ast.Call) and isinstance(e.func, ast.Name) and not e.keywords and len(e.args) == 1:
+        if isinstance(e, ast.Call) and not e.keywords and len(e.args) == 1 and (isinstance(e.func, ast.Name) or (isinstance(e.func, ast.Attribute) and e.func.attr in CONSUMER_METHODS)):
             a = e.args[0]
             if isinstance(a, ast.Call) and isinstance(a.func, ast.Name) and a.func.id == "map" and len(a.args) == 2 and not a.keywords and isinstance(a.args[0], (ast.Name, ast.Attribute)):
                 def mk(a=a, e=e):
@@ -686,7 +686,7 @@ def candidates(fn, stored_attrs=frozenset()) -> List[Cand]:
                     elt = L(ast.Call(func=a.args[0], args=[v], keywords=[]), a)
                     gen = ast.comprehension(target=L(ast.Name(id="_x", ctx=ast.Store()), a), iter=a.args[1], ifs=[], is_async=0)
                     return elt, gen
-                if e.func.id in ("list", "set"):
+                if isinstance(e.func, ast.Name) and e.func.id in ("list", "set"):
                     def f(parent=parent, field=field, idx=idx, e=e, mk=mk):
                         elt, gen = mk()
                         _set(parent, field, idx, L((ast.ListComp if e.func.id == "list" else ast.SetComp)(elt=elt, generators=[gen]), e))
@@ -980,7 +980,7 @@ def inline_fresh(fn, known_names: set, stored_attrs) -> bool:
             remaining = list(rs)
             for container, j, head in sites:
                 here = [r for r in remaining if any(x is r for x in ast.walk(head))]
-                if len(here) != 1 or not _evaluated_first(head, here[0]) or _deferred(head, here[0]):
+                if len(here) != 1 or _deferred(head, here[0]) or not (_evaluated_first(head, here[0]) or _movable_before(st.value, head, here[0], fn)):
                     ok = False
                     break
                 chosen.append((container, j, here[0]))
@@ -994,6 +994,64 @@ def inline_fresh(fn, known_names: set, stored_attrs) -> bool:
                     _put(container, j, r, st.value)
             del stmts[i]
             return True
+    return False
+
+
+PURE_METHODS = {"keys", "values", "items", "get", "copy"}
+PURE_BUILTINS = {"len", "set", "frozenset", "tuple", "list", "dict", "sorted", "isinstance", "type", "bool", "min", "max"}
+
+
+def effect_free(e) -> bool:
+    """evaluating e changes nothing and only looks at the objects named in it (no user code: operators on builtin containers,
+    a few read-only builtin methods and constructors)."""
+    if isinstance(e, (ast.Name, ast.Constant)):
+        return True
+    if isinstance(e, (ast.Tuple, ast.List, ast.Set)):
+        return all(effect_free(x) for x in e.elts)
+    if isinstance(e, ast.Starred):
+        return effect_free(e.value)
+    if isinstance(e, ast.BinOp):
+        return effect_free(e.left) and effect_free(e.right)
+    if isinstance(e, ast.UnaryOp):
+        return effect_free(e.operand)
+    if isinstance(e, ast.BoolOp):
+        return all(effect_free(v) for v in e.values)
+    if isinstance(e, ast.Compare):
+        return effect_free(e.left) and all(effect_free(c) for c in e.comparators)
+    if isinstance(e, ast.IfExp):
+        return effect_free(e.test) and effect_free(e.body) and effect_free(e.orelse)
+    if isinstance(e, ast.Subscript):
+        return isinstance(e.ctx, ast.Load) and effect_free(e.value) and effect_free(e.slice)
+    if isinstance(e, ast.Slice):
+        return all(x is None or effect_free(x) for x in (e.lower, e.upper, e.step))
+    if isinstance(e, ast.Call) and not e.keywords:
+        if isinstance(e.func, ast.Attribute) and e.func.attr in PURE_METHODS and isinstance(e.func.value, ast.Name):
+            return all(effect_free(a) for a in e.args)
+        if isinstance(e.func, ast.Name) and e.func.id in PURE_BUILTINS:
+            return all(effect_free(a) for a in e.args)
+    return False
+
+
+def _movable_before(value, head, r, fn) -> bool:
+    """value (assigned just before head) may be evaluated at the read r instead: it is effect free, its operands are plain local
+    names, and nothing evaluated in head before r is given those names (a callee cannot reach a local it is not passed)."""
+    if not effect_free(value):
+        return False
+    ops = {x.id for x in ast.walk(value) if isinstance(x, ast.Name) and x.id not in PURE_BUILTINS}
+    locs = local_names(fn) | params_of(fn)
+    if not ops <= locs:
+        return False
+    if any(isinstance(sc, SCOPE + (ast.Lambda,)) and any(isinstance(n, ast.Name) and n.id in ops for n in ast.walk(sc)) for sc in own_walk(fn)):
+        return False      # captured by a closure: a callee could reach it
+    inside = {id(x) for x in ast.walk(r)}
+    for x in eval_seq(head):
+        if id(x) in inside:
+            return True
+        if isinstance(x, ast.Name) and x.id in ops and isinstance(x.ctx, ast.Load):
+            # the operand is handed to / used by something evaluated earlier: it could be changed there
+            return False
+        if isinstance(x, (ast.NamedExpr, ast.Await, ast.Yield, ast.YieldFrom)):
+            return False
     return False
 
 
@@ -1091,6 +1149,11 @@ def _tail_returns_only(stmts, tail=True) -> bool:
         elif isinstance(st, ast.If):
             if not (_tail_returns_only(st.body, is_last) and _tail_returns_only(st.orelse, is_last)):
                 return False
+        elif isinstance(st, ast.Try) and not st.finalbody:
+            # `try: return E except T: return F` as the last statement: the returns are in tail position too
+            body_tail = is_last and not st.orelse
+            if not (_tail_returns_only(st.body, body_tail) and _tail_returns_only(st.orelse, is_last) and all(_tail_returns_only(h.body, is_last) for h in st.handlers)):
+                return False
         elif isinstance(st, SCOPE):
             continue
         else:
@@ -1116,6 +1179,12 @@ def _map_returns(stmts, make):
             st.body = _map_returns(st.body, make)
             st.orelse = _map_returns(st.orelse, make)
             out.append(st)
+        elif isinstance(st, ast.Try):
+            st.body = _map_returns(st.body, make) or [L(ast.Pass(), st)]
+            st.orelse = _map_returns(st.orelse, make)
+            for h in st.handlers:
+                h.body = _map_returns(h.body, make) or [L(ast.Pass(), h)]
+            out.append(st)
         else:
             out.append(st)
     return out
@@ -1140,8 +1209,9 @@ def _helper_instance(helper, call, caller_names: set, is_method: bool):
         return None
     if helper.decorator_list:
         return None      # a decorated function is not its body (@cache, @staticmethod, ...)
-    if any(isinstance(x, SCOPE) for x in own_walk(helper)):
-        return None
+    has_nested = any(isinstance(x, SCOPE) for x in own_walk(helper))
+    if has_nested and not all(isinstance(v, (ast.Name, ast.Constant)) for v in list(call.args) + [k.value for k in call.keywords]):
+        return None      # a closure made by the helper captures its parameters: only plain names can take their place
     names = [x.arg for x in a.args]
     if is_method:
         if not names:
@@ -1307,6 +1377,23 @@ def inline_helpers(tree: ast.Module, known_paths: set, functions) -> int:
                             if not early and not isinstance(st, (ast.While,)):
                                 new = prologue + body[:-1] + [_replace_expr(st, c, body[-1].value)]
                         if new is None:
+                            # the call sits inside a larger expression: give it a statement of its own first (when it is the
+                            # first thing the statement evaluates), the next round inlines `tmp = helper(...)`
+                            if _tail_returns_only(body) and _all_tails_return(body) and not isinstance(st, ast.While) and _evaluated_first(head, c) \
+                                    and not _deferred(head, c) and not (isinstance(st, (ast.Assign, ast.AnnAssign, ast.Return, ast.Expr)) and st.value is c):
+                                tmp_n = sum(1 for x in ast.walk(caller) if isinstance(x, ast.Name) and x.id.startswith("_xk"))
+                                tmp = f"_xk{tmp_n}h"
+                                asg = L(ast.Assign(targets=[L(ast.Name(id=tmp, ctx=ast.Store()), c)], value=c), st)
+                                ld = L(ast.Name(id=tmp, ctx=ast.Load()), c)
+                                if isinstance(st, (ast.If,)):
+                                    st.test = _replace_expr(st.test, c, ld)
+                                elif isinstance(st, (ast.For, ast.AsyncFor)):
+                                    st.iter = _replace_expr(st.iter, c, ld)
+                                else:
+                                    stmts[i] = _replace_expr(st, c, ld)
+                                stmts.insert(i, asg)
+                                changed = True
+                                break
                             continue
                         stmts[i:i + 1] = new
                         changed = True
@@ -1318,6 +1405,22 @@ def inline_helpers(tree: ast.Module, known_paths: set, functions) -> int:
                     break
             if not changed:
                 break
+    if n_inlined:
+        # a helper that the reference does not know and that nothing refers to any more is dropped: what it did is now
+        # analysed where it is done
+        for key, h in helpers.items():
+            name = h.name
+            refs = [x for x in ast.walk(tree) if (isinstance(x, ast.Name) and x.id == name) or (isinstance(x, ast.Attribute) and x.attr == name)]
+            refs = [x for x in refs if not any(x is y for y in ast.walk(h))]
+            if refs or any(isinstance(c, ast.Constant) and c.value == name for c in ast.walk(tree)):
+                continue
+            for owner in ast.walk(tree):
+                for field in ("body", "orelse", "finalbody"):
+                    stmts = getattr(owner, field, None)
+                    if isinstance(stmts, list) and h in stmts:
+                        stmts.remove(h)
+                        if not stmts:
+                            stmts.append(ast.copy_location(ast.Pass(), h))
     return n_inlined
 
 
@@ -1346,6 +1449,8 @@ def _all_tails_return(stmts) -> bool:
         return _all_tails_return(s.body) and _all_tails_return(s.orelse)
     if isinstance(s, ast.Raise):
         return True
+    if isinstance(s, ast.Try) and not s.finalbody and s.handlers:
+        return _all_tails_return(s.orelse if s.orelse else s.body) and all(_all_tails_return(h.body) for h in s.handlers)
     return False
 
 
@@ -1486,7 +1591,7 @@ def _unmatched_stmt_ids(fn, ref_fps):
     return out
 
 
-DUPLICATING = {"push-tail", "unhoist", "if-split", "and-else-out", "ifexp-callee-out", "expand-local", "ifexp-out"}
+DUPLICATING = {"push-tail", "unhoist", "if-split", "and-else-out", "ifexp-callee-out", "expand-local"}
 
 
 def direct_function(fn, ref_fps: List[str], known_names: set, stored_attrs, normalise: Callable, budget: int = 400) -> int:
@@ -1621,7 +1726,7 @@ def candidates_all(fn, stored_attrs, ref_fps):
         anchor = None
         dfl = f.__defaults__ or ()
         if inside is None:
-            inside = {id(x) for x in ast.walk(fn)}
+            inside = {id(x) for x in ast.walk(fn)} - {id(fn)}
         for v in dfl:
             if isinstance(v, ast.stmt) and id(v) in inside:
                 anchor = v
@@ -1639,7 +1744,7 @@ def candidates_all(fn, stored_attrs, ref_fps):
 
 # ------------------------------------------------------------------------------------------------ second batch of rewrites
 CONSUMERS = {"all", "any", "tuple", "set", "frozenset", "sorted", "sum", "min", "max", "list", "dict"}
-CONSUMER_METHODS = {"join", "update", "extend"}
+CONSUMER_METHODS = {"join", "update", "extend", "difference_update", "intersection_update", "symmetric_difference_update", "union", "difference", "intersection", "issubset", "issuperset", "isdisjoint"}
 
 
 def _enclosing_stmt_map(fn):
@@ -1749,6 +1854,19 @@ def candidates2(fn, stored_attrs) -> List[Cand]:
                     def f(st=st, lastb=lastb):
                         st.body[-1] = L(ast.Return(value=lastb.value), lastb)
                     out.append(("retvar-out", f))
+            # `if c: x = E` + `return G(x)`  ->  `if c: return G(E)` + `return G(x)`   (x read once, first, in G)
+            if isinstance(st, ast.If) and not st.orelse and len(rest) == 1 and isinstance(rest[0], ast.Return) and rest[0].value is not None and not isinstance(rest[0].value, ast.Name) and st.body:
+                lastb = st.body[-1]
+                if isinstance(lastb, ast.Assign) and len(lastb.targets) == 1 and isinstance(lastb.targets[0], ast.Name):
+                    x = lastb.targets[0].id
+                    rs = [n for n in ast.walk(rest[0].value) if isinstance(n, ast.Name) and n.id == x]
+                    if len(rs) == 1 and _evaluated_first(rest[0], rs[0]) and not _deferred(rest[0], rs[0]):
+                        def f(st=st, lastb=lastb, ret=rest[0], r=rs[0]):
+                            new_ret = copy.deepcopy(ret)
+                            target = [n for n in ast.walk(new_ret.value) if isinstance(n, ast.Name) and n.id == r.id][0]
+                            new_ret = _replace_expr(new_ret, target, lastb.value)
+                            st.body[-1] = L(new_ret, lastb)
+                        out.append(("assign-use-out", f))
             # default then conditional assignment  <->  if / else assignment
             if isinstance(st, (ast.Assign, ast.AnnAssign)) and rest and isinstance(rest[0], ast.If):
                 tgt = st.targets[0] if isinstance(st, ast.Assign) and len(st.targets) == 1 else getattr(st, "target", None)
@@ -1834,6 +1952,68 @@ def candidates2(fn, stored_attrs) -> List[Cand]:
                             st.body.extend(nxt.body)
                         del stmts[i + 1]
                     out.append(("if-merge", f))
+            # `x = A if c else x`  <->  `if c: x = A`
+            if isinstance(st, ast.Assign) and len(st.targets) == 1 and isinstance(st.targets[0], ast.Name) and isinstance(st.value, ast.IfExp):
+                x = st.targets[0].id
+                ie = st.value
+                if isinstance(ie.orelse, ast.Name) and ie.orelse.id == x:
+                    def f(stmts=stmts, i=i, st=st, ie=ie):
+                        stmts[i] = L(ast.If(test=ie.test, body=[L(ast.Assign(targets=st.targets, value=ie.body), st)], orelse=[]), st)
+                    out.append(("ifexp-self-out", f))
+                elif isinstance(ie.body, ast.Name) and ie.body.id == x:
+                    def f(stmts=stmts, i=i, st=st, ie=ie):
+                        stmts[i] = L(ast.If(test=neg_plain(ie.test), body=[L(ast.Assign(targets=st.targets, value=ie.orelse), st)], orelse=[]), st)
+                    out.append(("ifexp-self-out", f))
+            if isinstance(st, ast.If) and not st.orelse and len(st.body) == 1 and isinstance(st.body[0], ast.Assign) and len(st.body[0].targets) == 1 and isinstance(st.body[0].targets[0], ast.Name):
+                def f(stmts=stmts, i=i, st=st):
+                    a = st.body[0]
+                    x = a.targets[0].id
+                    stmts[i] = L(ast.Assign(targets=a.targets, value=L(ast.IfExp(test=st.test, body=a.value, orelse=L(ast.Name(id=x, ctx=ast.Load()), st)), st)), st)
+                out.append(("ifexp-self-in", f))
+            # coalesce: `y = E(x)` where x is dead afterwards and y is new: x is renamed y (`path = normalise(raw_path)` -> `path = normalise(path)`)
+            if isinstance(st, ast.Assign) and len(st.targets) == 1 and isinstance(st.targets[0], ast.Name):
+                y = st.targets[0].id
+                srcs = {n.id for n in ast.walk(st.value) if isinstance(n, ast.Name) and isinstance(n.ctx, ast.Load)} & (local_names(fn) | params_of(fn))
+                for x in sorted(srcs):
+                    if x == y:
+                        continue
+                    x_nodes = [n for n in own_walk(fn) if isinstance(n, ast.Name) and n.id == x]
+                    y_nodes = [n for n in own_walk(fn) if isinstance(n, ast.Name) and n.id == y]
+                    pos = (st.lineno, st.col_offset)
+                    x_after = [n for n in x_nodes if (n.lineno, n.col_offset) > (st.end_lineno or st.lineno, st.end_col_offset or 0) and not any(n is m for m in ast.walk(st))]
+                    y_before = [n for n in y_nodes if (n.lineno, n.col_offset) < pos]
+                    # in a loop body the renaming is only safe when x is bound again, earlier in the same block, at every iteration
+                    earlier_store = any(isinstance(n, ast.Name) and n.id == x and isinstance(n.ctx, ast.Store) for z in stmts[:i] for n in ast.walk(z))
+                    in_loop = bool(_loop_tail_blocks(fn)) and any(isinstance(o, (ast.For, ast.AsyncFor, ast.While)) for o in ast.walk(fn) if any(st is z for z in ast.walk(o))) and not earlier_store
+                    nested_use = any(isinstance(sc, SCOPE + (ast.Lambda,)) and any(isinstance(n, ast.Name) and n.id in (x, y) for n in ast.walk(sc)) for sc in own_walk(fn))
+                    if not x_after and not y_before and not in_loop and not nested_use and x not in params_of(fn):
+                        def f(fn=fn, x=x, y=y):
+                            for n in own_walk(fn):
+                                if isinstance(n, ast.Name) and n.id == x:
+                                    n.id = y
+                        out.append(("coalesce", f))
+            # copy-coalesce: `y = x` (x bound once before, never after; y not touched before; no store of y can run before a later
+            # read of x) -> x is renamed y and the copy disappears
+            if isinstance(st, ast.Assign) and len(st.targets) == 1 and isinstance(st.targets[0], ast.Name) and isinstance(st.value, ast.Name) and st.value.id != st.targets[0].id:
+                y, x = st.targets[0].id, st.value.id
+                if x in local_names(fn) and not any(isinstance(sc, SCOPE + (ast.Lambda,)) and any(isinstance(n, ast.Name) and n.id in (x, y) for n in ast.walk(sc)) for sc in own_walk(fn)):
+                    pos = (st.lineno, st.col_offset)
+                    x_nodes = [n for n in own_walk(fn) if isinstance(n, ast.Name) and n.id == x and n is not st.value]
+                    y_nodes = [n for n in own_walk(fn) if isinstance(n, ast.Name) and n.id == y and n is not st.targets[0]]
+                    x_stores_after = [n for n in x_nodes if isinstance(n.ctx, ast.Store) and (n.lineno, n.col_offset) > pos]
+                    x_stores_before = [n for n in x_nodes if isinstance(n.ctx, ast.Store) and (n.lineno, n.col_offset) < pos]
+                    y_before = [n for n in y_nodes if (n.lineno, n.col_offset) < pos]
+                    x_reads_after = [n for n in x_nodes if isinstance(n.ctx, ast.Load) and (n.lineno, n.col_offset) > pos]
+                    y_stores_after = [n for n in y_nodes if isinstance(n.ctx, ast.Store)]
+                    same_block_def = any(any(n is m for m in ast.walk(z)) for z in stmts[:i] for n in x_stores_before)
+                    if not x_stores_after and len(x_stores_before) == 1 and same_block_def and not y_before \
+                            and not any(_may_precede(fn, s_, r_) for s_ in y_stores_after for r_ in x_reads_after):
+                        def f(fn=fn, stmts=stmts, i=i, x=x, y=y):
+                            del stmts[i]
+                            for n in own_walk(fn):
+                                if isinstance(n, ast.Name) and n.id == x:
+                                    n.id = y
+                        out.append(("copy-coalesce", f))
             # `if c: return X` as the last statement of the function (None is returned otherwise)  <->  `return X if c else None`
             if isinstance(st, ast.If) and not st.orelse and not rest and stmts is top and len(st.body) == 1 and isinstance(st.body[0], ast.Return) and st.body[0].value is not None:
                 def f(stmts=stmts, i=i, st=st):
@@ -1996,6 +2176,62 @@ def candidates2(fn, stored_attrs) -> List[Cand]:
                                     return
                     out.append(("expand-local", f))
     return out
+
+
+def _chain(fn, node):
+    """[(statement list id, index, field)] from the function body down to the statement holding node."""
+    out = []
+
+    def rec(owner):
+        for field in ("body", "orelse", "finalbody", "handlers"):
+            items = getattr(owner, field, None)
+            if not isinstance(items, list):
+                continue
+            for idx, it in enumerate(items):
+                if isinstance(it, ast.ExceptHandler):
+                    if any(x is node for x in ast.walk(it)):
+                        out.append((id(items), idx, field))
+                        rec(it)
+                        return True
+                elif isinstance(it, ast.stmt) and any(x is node for x in ast.walk(it)):
+                    out.append((id(items), idx, field))
+                    if not isinstance(it, SCOPE):
+                        rec(it)
+                    return True
+        return False
+    rec(fn)
+    return out
+
+
+def _may_precede(fn, a, b) -> bool:
+    """can node a be executed before node b in one pass over the function (loops not unrolled)? Conservative: True unless the two
+    sit in exclusive branches of an `if` or a comes later in a common statement list."""
+    ca, cb = _chain(fn, a), _chain(fn, b)
+    for (la, ia, fa), (lb, ib, fb) in zip(ca, cb):
+        if la == lb:
+            if ia != ib:
+                return ia < ib
+            continue
+        # different lists of the same owner statement
+        if {fa, fb} == {"body", "orelse"}:
+            # body / orelse of an `if` are exclusive; of a loop or try they are not
+            return not _is_if_owner(fn, la, lb)
+        return True
+    if len(ca) == len(cb):
+        # the same simple statement: in `y = f(x)` the value is evaluated before the target is bound
+        for n in ast.walk(fn):
+            if isinstance(n, (ast.Assign, ast.AnnAssign)) and n.value is not None and any(z is b for z in ast.walk(n.value)) \
+                    and any(z is a for t in (n.targets if isinstance(n, ast.Assign) else [n.target]) for z in ast.walk(t)):
+                return False
+    # one contains the other (a test and its branch ...): the header of a statement runs before its blocks
+    return len(ca) <= len(cb)
+
+
+def _is_if_owner(fn, la, lb) -> bool:
+    for n in ast.walk(fn):
+        if isinstance(n, ast.If) and {id(n.body), id(n.orelse)} == {la, lb}:
+            return True
+    return False
 
 
 def _strip_ctx(node):
